@@ -370,6 +370,8 @@ def gen_cases(rng, tier):
             if 0 <= t:
                 cases.append(["c%d" % k, "c20", "cli", "0", str(t), "-"]); k += 1
                 cases.append(["c%d" % k, "c20", "cli", "0", str(t), str(max(1, t - 300))]); k += 1
+                # an error response (401, 420, 438 ...) carries the transaction id too and completes the request
+                cases.append(["c%d" % k, "c20", "cli", "0", str(t), "-", "-", "err"]); k += 1
     cases.append(["c%d" % k, "c20", "cli", "0", "-", "700"]); k += 1
     return cases
 
